@@ -22,6 +22,8 @@ impl Tok { pub fn new(id: u32) -> Tok { Tok { id } } }
 impl Drop for Tok { fn drop(&mut self) { DROPS[self.id as usize % NIDS].fetch_add(1, SeqCst); } }
 /// no Debug on purpose
 pub struct NoDbg(pub u32);
+#[derive(Debug, PartialEq, Clone)]
+pub struct D(pub u32);
 
 pub struct UserPanic(pub u32);
 
